@@ -48,9 +48,12 @@ type c11Event struct {
 	Scan   bool   `json:"scan,omitempty"`
 	Fault  *int   `json:"fault,omitempty"` // the rebuild of this tick fails at its k-th query
 	FMode  string `json:"fmode,omitempty"`
+	FKind  string `json:"fkind,omitempty"` // "" / after: every query from the k-th on fails (FailAfter); table: only the k-th
+	// query of the rebuild fails (its table is answered with 404), all other table fetches succeed
 }
 
 type c11Input struct {
+	Parallel bool         `json:"parallel,omitempty"` // MaxParallelPeerConnections 3: initAllTablesParallel instead of the serial rebuild
 	Datasets []c11Dataset `json:"datasets"`
 	Events   []c11Event   `json:"events"`
 }
@@ -202,6 +205,7 @@ type c11Runner struct {
 	ident    int
 	baseMode vMode
 	notes    []string
+	queries  []string // tables of the queries of a rebuild, in the order of the serial rebuild (measured)
 }
 
 func (r *c11Runner) note(format string, args ...interface{}) {
@@ -350,18 +354,39 @@ func (r *c11Runner) tick(ev *c11Event, obs *c11Obs) {
 
 	fmode := c11Mode(ev.FMode)
 	armed := false
+	var removedName string
+	var removedTable *vTable
+	errorsBefore := peer.errorCount.Load()
+	queriesBefore := r.backend.QueryCount()
+	// arm makes the k-th query (from 0) of the rebuild that starts after `offset` more queries fail
+	arm := func(offset int) {
+		armed = true
+		errorsBefore = peer.errorCount.Load()
+		queriesBefore = r.backend.QueryCount()
+		if ev.FKind != "table" {
+			r.backend.FailAfter(*ev.Fault+offset, fmode)
+
+			return
+		}
+		if *ev.Fault < 0 || *ev.Fault >= len(r.queries) {
+			return
+		}
+		removedName = r.queries[*ev.Fault]
+		r.backend.WithLock(func() {
+			removedTable = r.backend.tables[removedName]
+			delete(r.backend.tables, removedName)
+		})
+	}
 	if ev.Fault != nil && r.baseMode == vModeOK {
 		state := peer.peerState.Get()
 		data := peer.data.Load()
 		switch {
 		case state == PeerStatusDown || state == PeerStatusPending || (state != PeerStatusBroken && data == nil):
 			// periodicUpdate itself starts the rebuild
-			r.backend.FailAfter(*ev.Fault, fmode)
-			armed = true
+			arm(0)
 		case state == PeerStatusBroken:
 			// handleBrokenPeer asks for the status first
-			r.backend.FailAfter(*ev.Fault+1, fmode)
-			armed = true
+			arm(1)
 		}
 	}
 
@@ -369,12 +394,18 @@ func (r *c11Runner) tick(ev *c11Event, obs *c11Obs) {
 	go r.reader(stop, done, obs)
 	_, err := peer.periodicUpdate(r.ctx)
 	if c11RestartRequired(err) && ev.Fault != nil && r.baseMode == vModeOK && !armed {
-		r.backend.FailAfter(*ev.Fault, fmode)
+		arm(0)
 	}
 	_ = peer.initTablesIfRestartRequiredError(r.ctx, err)
 	close(stop)
 	<-done
+	if armed && r.in.Parallel {
+		r.waitForStragglers(ev, queriesBefore, errorsBefore)
+	}
 	r.backend.SetMode(r.baseMode)
+	if removedTable != nil {
+		r.backend.WithLock(func() { r.backend.tables[removedName] = removedTable })
+	}
 
 	if ev.Full && peer.lastFullUpdate.Get() == savedFull-2000 {
 		peer.lastFullUpdate.Set(savedFull)
@@ -389,15 +420,57 @@ func (r *c11Runner) tick(ev *c11Event, obs *c11Obs) {
 	}
 }
 
+// waitForStragglers: a parallel rebuild returns with the first failed table fetch while the other fetches are still
+// running. Their only effect on the peer is setNextAddrFromErr for each further failing query (idempotent after the
+// first one); wait until all of them happened so that none lands in a later step of the history.
+func (r *c11Runner) waitForStragglers(ev *c11Event, queriesBefore int, errorsBefore int64) {
+	nq := len(r.queries)
+	k := *ev.Fault
+	// did the parallel phase start at all? (a broken peer may only have asked for the status)
+	log := r.backend.QueryLog()
+	started := false
+	for _, q := range log[min(queriesBefore, len(log)):] {
+		if !strings.HasPrefix(q, "GET status") {
+			started = true
+		}
+	}
+	if !started || k < 1 || k >= nq {
+		return
+	}
+	// every query from the k-th on fails; the failure of `GET columns` is swallowed without touching the peer
+	expected := int64(0)
+	for _, name := range r.queries[k:] {
+		if name != "columns" {
+			expected++
+		}
+	}
+	if ev.FKind == "table" {
+		expected = 1
+	}
+	deadline := time.Now().Add(3 * time.Second)
+	for r.peer.errorCount.Load() < errorsBefore+expected || r.backend.QueryCount() < queriesBefore+nq {
+		if time.Now().After(deadline) {
+			r.note("stragglers of a parallel rebuild did not finish: k=%d kind=%q mode=%q errors %d of %d queries %d of %d", k, ev.FKind, ev.FMode, r.peer.errorCount.Load()-errorsBefore, expected, r.backend.QueryCount()-queriesBefore, nq)
+
+			return
+		}
+		time.Sleep(time.Millisecond)
+	}
+	time.Sleep(2 * time.Millisecond)
+}
+
 func c11RunCase(idx int, in *c11Input) (obs []c11Obs, notes []string) {
 	backend := newVBackend(fmt.Sprintf("c11-%d", idx))
 	defer backend.Close()
 	lmd := verifNewDaemon()
 	lmd.Config.MaxParallelPeerConnections = 1
+	if in.Parallel {
+		lmd.Config.MaxParallelPeerConnections = 3
+	}
 	lmd.Config.BackendKeepAlive = false
 	lmd.Config.FullUpdateInterval = 1000
 	lmd.Config.StaleBackendTimeout = 30
-	run := &c11Runner{ctx: context.Background(), lmd: lmd, backend: backend, in: in, ident: 1, baseMode: vModeOK}
+	run := &c11Runner{ctx: context.Background(), lmd: lmd, backend: backend, in: in, ident: 1, baseMode: vModeOK, queries: c11RebuildQueries}
 	backend.SetDataset(c11Build(in.Datasets[0], run.ident))
 	run.peer = vNewPeer(lmd, "p", []string{backend.Addr()}, nil)
 	defer func() {
@@ -448,6 +521,8 @@ func c11RunCase(idx int, in *c11Input) (obs []c11Obs, notes []string) {
 
 // c11Measure counts the queries of a rebuild: all of them, and the leading ones for the status table (a failure of
 // the `GET columns` query that follows is swallowed by checkAvailableTables, the rebuild goes on and fails at the next query).
+var c11RebuildQueries []string
+
 func c11Measure() (statusQueries, allQueries int) {
 	backend := newVBackend("c11-measure")
 	defer backend.Close()
@@ -460,6 +535,14 @@ func c11Measure() (statusQueries, allQueries int) {
 	}
 	log := backend.QueryLog()
 	statusQueries = len(log)
+	c11RebuildQueries = nil
+	for _, q := range log {
+		fields := strings.Fields(strings.SplitN(q, "\n", 2)[0])
+		if len(fields) != 2 {
+			panic("c11: unexpected query " + q)
+		}
+		c11RebuildQueries = append(c11RebuildQueries, fields[1])
+	}
 	for i, q := range log {
 		if !strings.HasPrefix(q, "GET status") {
 			statusQueries = i
@@ -766,7 +849,7 @@ func c11NextDataset(r *vRand, prev c11Dataset, ver int, sameCount, keepEntries b
 var c11FModes = []string{"garbage", "refuse", "truncate"}
 
 func c11Gen(r *vRand, nq int) *c11Input {
-	in := &c11Input{Datasets: []c11Dataset{c11GenDataset(r, 0)}}
+	in := &c11Input{Datasets: []c11Dataset{c11GenDataset(r, 0)}, Parallel: r.chance(2, 5)}
 	next := func(kind string) {
 		prev := in.Datasets[len(in.Datasets)-1]
 		in.Datasets = append(in.Datasets, c11NextDataset(r, prev, len(in.Datasets), r.chance(1, 2), kind == "change"))
@@ -778,6 +861,16 @@ func c11Gen(r *vRand, nq int) *c11Input {
 			k := r.intn(nq + 2)
 			ev.Fault = &k
 			ev.FMode = vPick(r, c11FModes)
+			if r.chance(1, 2) {
+				// exactly one table fetch of the rebuild fails (the `GET columns` query cannot be taken away)
+				ev.FKind = "table"
+				if k == 1 {
+					k = 2 + r.intn(nq-2)
+				}
+			} else if in.Parallel && ev.FMode == "refuse" {
+				// refused connects of straggling fetches leave no trace to wait for
+				ev.FMode = "garbage"
+			}
 		}
 		in.Events = append(in.Events, ev)
 	}
@@ -837,6 +930,56 @@ func c11Enumerate(r *vRand, nq int) []*c11Input {
 				}
 			}
 		}
+	}
+
+	return res
+}
+
+// c11EnumerateTables: exactly ONE table fetch of a rebuild fails - every table, early and late ones - while all
+// others succeed, with the serial and with the parallel rebuild (initAllTablesParallel), after a restart (same /
+// other counts, stale or not) and during the very first synchronisation; then recovery. Plus the parallel rebuild
+// with every query from the k-th on failing.
+func c11EnumerateTables(r *vRand, nq int) []*c11Input {
+	res := []*c11Input{}
+	first := func() c11Dataset {
+		ds := c11GenDataset(r, 0)
+		for len(ds["hosts"]) == 0 {
+			ds = c11GenDataset(r, 0)
+		}
+
+		return ds
+	}
+	n := 0
+	for k := 2; k < nq; k++ {
+		for _, parallel := range []bool{true, false} {
+			fault := k
+			n++
+			ds0 := first()
+			in := &c11Input{Parallel: parallel, Datasets: []c11Dataset{ds0, c11NextDataset(r, ds0, 1, n%2 == 0, false)}}
+			in.Events = append(in.Events, c11Event{Kind: "tick"}, c11Event{Kind: "restart"})
+			if n%3 == 0 {
+				in.Events = append(in.Events, c11Event{Kind: "stale"})
+			}
+			in.Events = append(in.Events, c11Event{Kind: "tick", Fault: &fault, FKind: "table"}, c11Event{Kind: "tick"}, c11Event{Kind: "tick"})
+			res = append(res, in)
+			// the first synchronisation, then a second failing table after a change of the object counts
+			other := 2 + (k+3)%(nq-2)
+			ds0 = first()
+			res = append(res, &c11Input{Parallel: parallel, Datasets: []c11Dataset{ds0, c11Grow(ds0, 1, "hostgroups", 1)},
+				Events: []c11Event{{Kind: "tick", Fault: &fault, FKind: "table"}, {Kind: "tick"}, {Kind: "change"},
+					{Kind: "tick", Minute: true, Fault: &other, FKind: "table"}, {Kind: "tick", Minute: true}, {Kind: "tick"}}})
+		}
+	}
+	for k := 0; k <= nq; k++ {
+		fault := k
+		ds0 := first()
+		in := &c11Input{Parallel: true, Datasets: []c11Dataset{ds0, c11NextDataset(r, ds0, 1, k%2 == 0, false)}}
+		in.Events = append(in.Events, c11Event{Kind: "tick"}, c11Event{Kind: "restart"})
+		if k%3 == 1 {
+			in.Events = append(in.Events, c11Event{Kind: "stale"})
+		}
+		in.Events = append(in.Events, c11Event{Kind: "tick", Fault: &fault, FMode: []string{"garbage", "truncate"}[k%2]}, c11Event{Kind: "tick"}, c11Event{Kind: "tick"})
+		res = append(res, in)
 	}
 
 	return res
@@ -944,7 +1087,9 @@ func c11Main(args []string) int {
 	meta := newVMeta("restart", "enumerated: [initial sync; restart with a changed object set (same / other counts); optionally stale; tick whose rebuild fails at "+
 		"query k; 2 recovery ticks] for every k in 0..nq, every failure mode (garbage, refuse, truncate); object count changes without restart (more hosts / "+
 		"services found by the full scan: broken state, waiting, grace time over, restart, rebuild failing at several k, outage + stale; fewer objects; more groups / "+
-		"timeperiods / contacts seen by the per-minute refresh or the full update). generated: histories of 7..18 events "+
+		"timeperiods / contacts seen by the per-minute refresh or the full update); exactly one table fetch of a rebuild failing (404) while all others succeed, "+
+		"for every table, with the serial and the parallel rebuild (MaxParallelPeerConnections 3), after a restart and during the first synchronisation, and the "+
+		"parallel rebuild failing from query k on for every k. generated: histories of 7..18 events, 40% with the parallel rebuild, faults half single-table "+
 		"(restart, change without restart, stop/resume answering, stale timeout, ticks with per-minute refresh / full update or broken grace over / full scan due / "+
 		"rebuild fault at k in 0..nq+1) ending with recovery ticks; object sets drawn from name pools (0..7 hosts, services, groups, contacts, timeperiods, "+
 		"commands, comments, downtimes; aliases tagged with the version). non-trivial: a restart or change, a failed cycle and a later successful rebuild observed; distinct by input")
@@ -957,6 +1102,7 @@ func c11Main(args []string) int {
 		rnd := newVRand(flags.seed*0x2545F4914F6CDD1D + 0x11)
 		inputs = append(inputs, c11Enumerate(rnd.fork(), nq)...)
 		inputs = append(inputs, c11EnumerateChanges(rnd.fork(), nq)...)
+		inputs = append(inputs, c11EnumerateTables(rnd.fork(), nq)...)
 		for range flags.n {
 			inputs = append(inputs, c11Gen(rnd.fork(), nq))
 		}
@@ -999,6 +1145,18 @@ func c11Main(args []string) int {
 			if ev.Kind == "tick" {
 				if ev.Fault != nil {
 					meta.count(fmt.Sprintf("fault k=%d", *ev.Fault))
+					kind := "all queries from k on fail"
+					if ev.FKind == "table" {
+						kind = "only table k fails"
+						if *ev.Fault >= 0 && *ev.Fault < len(c11RebuildQueries) {
+							meta.count("single failing table=" + c11RebuildQueries[*ev.Fault])
+						}
+					}
+					if in.Parallel {
+						meta.count("fault (parallel rebuild): " + kind)
+					} else {
+						meta.count("fault (serial rebuild): " + kind)
+					}
 				}
 				if o.status != "Up" && changed {
 					failedCycle = true
@@ -1018,6 +1176,9 @@ func c11Main(args []string) int {
 		}
 		for _, n := range notes[i] {
 			meta.count("note=" + n)
+		}
+		if in.Parallel {
+			meta.count("histories with the parallel rebuild")
 		}
 		key, _ := json.Marshal(in)
 		meta.add(string(key), changed && failedCycle && rebuilt, in)
